@@ -11,7 +11,7 @@ from ..core import cstr, clist, cpair, cN, cbool, copt
 
 ID = "C11"
 THEOREM_FILE = "Properties/C11.v"
-IMPORTS = "From Annet Require Import Base.Str Model.Vlan Model.VlanDb Spec.P_C11."
+IMPORTS = "From Annet Require Import Base.Str Model.Vlan Model.VlanDb Model.VlanCisco Spec.P_C11."
 TY = "case"
 META = {
     "text": "Proof: for every VLAN set (Python set = AVL set over N) expand(collapse(S)) = S for both range "
@@ -25,7 +25,11 @@ META = {
             "`vlan N` / `undo vlan N` commands turns S_old into S_new and no prefix drops a VLAN of S_old & S_new "
             "(C11_db_final, C11_db_no_transient_loss), under the guard that a VLAN with a block in the new configuration "
             "which was in the old batch is still in the new batch; without the guard the shipped code is refuted by a Coq "
-            "witness replayed on the real code (C11_db_block_leaves_batch_refuted, known finding). The shipped-before-fix "
+            "witness replayed on the real code (C11_db_block_leaves_batch_refuted, known finding). Cisco/Nexus global `vlan` "
+            "rule with blocks (list rows and `vlan N` blocks in one slot of cisco.vlandb.simple, Catalyst and non-Catalyst): "
+            "the same two statements (C11_cisco_blocks_final, C11_cisco_blocks_no_transient_loss) under the guard that in "
+            "the old configuration a VLAN is written on one row; for the Nexus shape (VLAN in the list row and as a block) "
+            "refuted by a witness replayed on the real code (C11_cisco_block_removed_refuted, known finding). The shipped-before-fix "
             "huawei multi_all/single shortcut is refuted by a Coq witness (undo ... vlan all while other lines stay). "
             "Correspondence: Coq evaluates model==implementation (rows up to order, rows inside a `vlan N` patch block "
             "included) and the predicates on the rows really emitted by annet.api._diff_and_patch over the shipped "
@@ -41,8 +45,9 @@ META = {
             "unstripped diff, so unchanged rows reach the rule logics in either mode. Device semantics of the commands (vlan batch / undo vlan batch / "
             "vlan N / undo vlan N / undo ... all / none) are an assumption (Model.Vlan.step, Model.VlanDb.effect). "
             "Option rows inside a huawei `vlan N` block: `name`, `description` and catch-all rows, no `undo ...` rows. "
-            "Not modelled: cisco/nexus `vlan N` blocks with option rows (same `vlan` rule as the list rows, no "
-            "diff_logic) and the per-line keyed huawei `vlan pool * / vlan *` rule. Trusted: Coq kernel + VM, harness "
+            "Same option rows (negation `no`) inside a cisco/nexus `vlan N` block; a many-VLAN row with child rows is "
+            "outside the model; no totality theorem for the cisco block model (only: whenever it answers). Not modelled: "
+            "the per-line keyed huawei `vlan pool * / vlan *` rule. Trusted: Coq kernel + VM, harness "
             "generators/printers/runner.",
 }
 
@@ -218,11 +223,11 @@ def gen_cases(ctx) -> list[dict]:
     n_corpus = len(cases)
 
     # (3) random over 1..4094, 1..4 lines
-    n_rand = 12000 if ctx.thorough else 1300
+    n_rand = 12000 if ctx.thorough else 1100
     for i in range(n_rand):
         kind = kinds[i % len(kinds)]
         single = KINDS[kind]["logic"] == "HwSingle"
-        size = rng.choice(["small", "small", "small", "medium", "medium", "medium", "medium", "large"] if i % 25 else ["large"])
+        size = rng.choice(["small", "small", "small", "medium", "medium", "medium"] if i % 25 else ["large"])
         so = random_set(rng, size)
         old_parts = random_splitting(rng, ranges_of(so), 1 if single and rng.random() < 0.6 else 4)
         mode = rng.random()
@@ -501,7 +506,7 @@ def process(ctx, cases: list[dict], stats: Stats, tag: str) -> None:
     stats.add(cases, outs)
     stats.samples = [{"input": {"kind": c["kind"], "old_rows": c["old_rows"], "new_rows": c["new_rows"]}, "impl": o}
                      for c, o in list(zip(cases, outs))[-3:]]
-    per_file = max(40, min(8000, len(cases) // (3 * core.NPROC) + 1))
+    per_file = max(40, min(8000, len(cases) // (2 * core.NPROC) + 1))
     failing = run_compact(cases, outs, per_file, tag="compact_" + tag)
     stats.failing += len(failing)
     sub = failing[:600]
@@ -624,7 +629,7 @@ def gen_db_cases(ctx) -> list[dict]:
               mk_db_case([], [], [], [(20, [])], "corpus")]
     n_corpus = len(cases)
 
-    n_rand = 9000 if ctx.thorough else 700
+    n_rand = 6000 if ctx.thorough else 700
     hist = {"block_on_first_new_line": 0, "block_on_later_new_line": 0, "block_not_in_new_batch": 0,
             "block_removed_keeps_options_undone": 0, "block_added": 0, "block_in_both": 0}
     for i in range(n_rand):
@@ -710,20 +715,19 @@ def gen_db_cases(ctx) -> list[dict]:
 
 def gen_db_exhaustive(ctx) -> list[dict]:
     """all pairs of configurations: batch = every subset of a universe x every splitting of its range list into
-    <= 2 (thorough: 3) lines; blocks: VLAN A absent / empty / name a / name b / description d
-    (thorough: x VLAN B absent / name a)"""
+    <= 2 (thorough: 3) lines; blocks: VLAN A absent / empty / name a / name b / description d"""
     uni = [1, 2, 4, 6] if ctx.thorough else [1, 2, 4]
-    ida, idb = uni[1], uni[-1]
+    ida = uni[1]
     subsets = [[v for i, v in enumerate(uni) if m >> i & 1] for m in range(1 << len(uni))]
     batches = [sp for s in subsets for sp in all_splittings(ranges_of(s), 3 if ctx.thorough else 2)]
     blocks = [a + b for a in ([], [(ida, [])], [(ida, ["name a"])], [(ida, ["name b"])], [(ida, ["description d"])])
-              for b in (([], [(idb, ["name a"])]) if ctx.thorough else ([],))]
+              for b in ([],)]
     confs = [(p, k) for p in batches for k in blocks]
     ctx.coverage["input_distribution"]["db_exhaustive"] = len(confs) ** 2
     ctx.coverage["input_distribution"]["db_exhaustive_scope"] = (
         f"all pairs of {len(confs)} configurations: `vlan batch` = every subset of {uni} x every splitting of its "
         f"range list into <= {3 if ctx.thorough else 2} lines; blocks: vlan {ida} absent/empty/name a/name b/"
-        f"description d" + (f" x vlan {idb} absent/name a" if ctx.thorough else ""))
+        f"description d")
     return [mk_db_case(o[0], n[0], o[1], n[1], "exhaustive") for o in confs for n in confs]
 
 
@@ -781,7 +785,7 @@ class DbStats:
         self.nontrivial = 0
         self.lines: dict[str, int] = {}
         self.out = {"rows": 0, "exc": 0, "no_commands": 0}
-        self.cmds = {"vlan batch": 0, "undo vlan batch": 0, "vlan N (plain)": 0, "vlan N (block)": 0, "undo vlan N": 0}
+        self.cmds: dict[str, int] = {}
         self.failing = 0
         self.bad = {l: 0 for l in PREDS_DB}
         self.classes: dict[str, int] = {}
@@ -799,36 +803,195 @@ class DbStats:
             for r, kids in o["rows"]:
                 w = r.split()
                 k = ("undo vlan batch" if w[:3] == ["undo", "vlan", "batch"] else "vlan batch" if w[:2] == ["vlan", "batch"]
-                     else "undo vlan N" if w[0] == "undo" else "vlan N (block)" if kids else "vlan N (plain)")
-                self.cmds[k] += 1
-            h = hash(json.dumps([c["old_rows"], c["new_rows"]]))
+                     else "undo vlan N" if w[0] == "undo" else "no vlan (list)" if w[0] == "no"
+                     else "vlan N (block)" if kids else "vlan (list)" if "cat" in c else "vlan N (plain)")
+                self.cmds[k] = self.cmds.get(k, 0) + 1
+            h = hash(json.dumps([c.get("cat"), c["old_rows"], c["new_rows"]]))
             if h in self.seen:
                 continue
             self.seen.add(h)
-            if o["rows"] and (c["old_blocks"] or c["new_blocks"]):
+            blocks = (c["old_blocks"] or c["new_blocks"]) if "old_blocks" in c else any(k for _, k in c["old"] + c["new"])
+            if o["rows"] and blocks:
                 self.nontrivial += 1
 
 
-DIAG_DB = {0: "ok", 1: "block-kept-but-vlan-dropped-from-batch", 2: "common-vlan-removed", 3: "final-set-differs",
-           4: "raised", 5: "unreadable-command", 6: "outside-domain"}
+# ---------------------------------------------------------------------------------------
+# the Cisco / Nexus global `vlan` rule: list rows and `vlan N` blocks in one rule slot (Model.VlanCisco)
+
+CDB_HW = {"C": "Cisco Catalyst 2960", "N": "Cisco Nexus"}
+CKID_STATES = [["name a"], ["name a"], ["name b"], ["description d"], ["name a", "description d"],
+               ["name b", "description e"], ["state suspend"], ["name a", "state suspend"]]
 
 
-def process_db(ctx, cases: list[dict], stats: DbStats, tag: str) -> None:
-    """implementation on every case; Coq (Spec.P_C11.check_data_db) answers, for every case, which of agree_db /
-    holds_db / struct_is_text_db is false and the class of a failure of the property"""
-    outs = core.run_impl_sharded("c11_runner.py", [db_payload(c) for c in cases])
+def crow_text(rs) -> str:
+    return "vlan " + ",".join(str(a) if a == b else f"{a}-{b}" for a, b in rs)
+
+
+def mk_cdb_case(cat: str, old, new, src: str, rng=None) -> dict:
+    """old/new: rows (ranges, child rows); child rows only under a row naming one VLAN"""
+    c = {"kind": "cisco_vlandb", "cat": cat, "src": src,
+         "old": [([tuple(r) for r in rs], list(k)) for rs, k in old],
+         "new": [([tuple(r) for r in rs], list(k)) for rs, k in new]}
+    for side in ("old", "new"):
+        rows = [[crow_text(rs), list(k)] if k else crow_text(rs) for rs, k in c[side]]
+        if rng is not None and rng.random() < 0.2:
+            rng.shuffle(rows)
+        c[side + "_rows"] = rows
+    return c
+
+
+def cdb_payload(c: dict) -> dict:
+    return {"hw": CDB_HW[c["cat"]], "block": None, "old": c["old_rows"], "new": c["new_rows"]}
+
+
+def cdb_config(rng, vlans: set[int], blocks: dict[int, list], nexus_shape: bool, max_rows: int = 3) -> list:
+    """rows of one configuration: list rows (the VLANs of the blocks are repeated in them on a Nexus, left out on a
+    Catalyst) + one block per entry of `blocks`; no two rows with the same text"""
+    listed = set(vlans) if nexus_shape else set(vlans) - set(blocks)
+    parts = random_splitting(rng, ranges_of(listed), max_rows)
+    rows = [(p, []) for p in parts if not (len(p) == 1 and p[0][0] == p[0][1] and p[0][0] in blocks)]
+    return rows + [([(n, n)], k) for n, k in sorted(blocks.items())]
+
+
+def gen_cdb_cases(ctx) -> list[dict]:
+    rng = ctx.rng("gen-cdb")
+    cases: list[dict] = []
+    l10 = [(1, 10)]
+    for cat in ("C", "N"):
+        cases += [
+            mk_cdb_case(cat, [(l10, []), ([(5, 5)], ["name x"])], [(l10, [])], "corpus"),          # Nexus shape
+            mk_cdb_case(cat, [(l10, []), ([(5, 5)], ["name x"])], [(l10, []), ([(5, 5)], ["name y"])], "corpus"),
+            mk_cdb_case(cat, [(l10, [])], [(l10, []), ([(5, 5)], ["name x"])], "corpus"),
+            mk_cdb_case(cat, [([(1, 4), (6, 10)], []), ([(5, 5)], ["name x"])], [(l10, [])], "corpus"),  # Catalyst shape
+            mk_cdb_case(cat, [([(1, 4), (6, 10)], []), ([(5, 5)], ["name x"])], [([(1, 4), (6, 10)], [])], "corpus"),
+            mk_cdb_case(cat, [(l10, [])], [([(1, 4), (6, 10)], []), ([(5, 5)], ["name x"])], "corpus"),
+            mk_cdb_case(cat, [([(1, 4), (6, 10)], []), ([(5, 5)], [])], [([(1, 4), (6, 10)], []), ([(5, 5)], ["name x"])],
+                        "corpus"),
+            mk_cdb_case(cat, [([(5, 5)], ["name x", "description d"])], [([(5, 5)], [])], "corpus"),
+            mk_cdb_case(cat, [], [([(2, 3), (7, 7)], []), ([(9, 9)], ["name n"])], "corpus"),
+            mk_cdb_case(cat, [([(2, 3), (7, 7)], []), ([(9, 9)], ["name n"])], [], "corpus"),
+        ]
+    n_corpus = len(cases)
+    n_rand = 6000 if ctx.thorough else 500
+    hist = {"nexus_shape": 0, "catalyst_shape": 0, "block_removed": 0, "block_added": 0, "block_in_both": 0}
+    for i in range(n_rand):
+        cat = "CN"[i % 2]
+        nexus_shape = rng.random() < (0.45 if cat == "N" else 0.15)
+        hist["nexus_shape" if nexus_shape else "catalyst_shape"] += 1
+        so = random_set(rng, "small") if rng.random() < 0.7 else \
+            {v for _ in range(rng.randint(1, 20)) for v in [rng.randint(1, 4094)]}
+        sn = set(so)
+        if rng.random() < 0.75:
+            for _ in range(rng.randint(1, 3)):
+                if sn and rng.random() < 0.5:
+                    sn.discard(rng.choice(sorted(sn)))
+                else:
+                    sn.add(rng.randint(1, 4094))
+        ob: dict[int, list] = {}
+        nb: dict[int, list] = {}
+        for _ in range(rng.choice([0, 1, 1, 2, 3])):
+            pool = sorted(so | sn)
+            if not pool:
+                break
+            n = rng.choice(pool)
+            if n in ob or n in nb:
+                continue
+            st_old = rng.choice(CKID_STATES + [None, None]) if n in so else None
+            st_new = rng.choice(CKID_STATES + [None, None, None]) if n in sn else None
+            if st_old is not None:
+                ob[n] = st_old
+            if st_new is not None:
+                nb[n] = st_new
+            hist["block_removed"] += st_old is not None and st_new is None
+            hist["block_added"] += st_old is None and st_new is not None
+            hist["block_in_both"] += st_old is not None and st_new is not None
+        old = cdb_config(rng, so, ob, nexus_shape)
+        if rng.random() < 0.35 and so == sn:
+            # the list rows stay as they are, only blocks change
+            keep = [r for r in old if not r[1]]
+            new = [r for r in keep if not (len(r[0]) == 1 and r[0][0][0] == r[0][0][1] and r[0][0][0] in nb)] + \
+                  [([(n, n)], k) for n, k in sorted(nb.items())]
+        else:
+            new = cdb_config(rng, sn, nb, nexus_shape)
+        cases.append(mk_cdb_case(cat, old, new, "cdb-random", rng))
+    ctx.coverage["input_distribution"].update({"cdb_corpus": n_corpus, "cdb_random": n_rand, "cdb_shapes": hist})
+    return cases
+
+
+def gen_cdb_exhaustive(ctx) -> list[dict]:
+    """all pairs of configurations over a universe: list rows = every subset x every splitting into <= 2 rows;
+    block on VLAN A: absent / name a / name b (A may or may not also be written in a list row); both hardware kinds"""
+    uni = [1, 2, 4, 6] if ctx.thorough else [1, 2, 4]
+    ida = uni[1]
+    subsets = [[v for i, v in enumerate(uni) if m >> i & 1] for m in range(1 << len(uni))]
+    lists = [sp for s in subsets for sp in all_splittings(ranges_of(s), 2)]
+    confs = []
+    for p in lists:
+        for k in (None, ["name a"], ["name b"]):
+            if k is not None and any(len(r) == 1 and r[0] == (ida, ida) for r in p):
+                continue       # the row `vlan A` cannot be there twice
+            confs.append([(r, []) for r in p] + ([] if k is None else [([(ida, ida)], k)]))
+    ctx.coverage["input_distribution"]["cdb_exhaustive"] = 2 * len(confs) ** 2
+    ctx.coverage["input_distribution"]["cdb_exhaustive_scope"] = (
+        f"Catalyst and Nexus: all pairs of {len(confs)} configurations: list rows = every subset of {uni} x every "
+        f"splitting into <= 2 rows; block vlan {ida}: absent / name a / name b")
+    return [mk_cdb_case(cat, o, n, "exhaustive") for cat in ("C", "N") for o in confs for n in confs]
+
+
+def c_crow(r) -> str:
+    rs, kids = r
+    return cpair(clist(cpair(cN(a), cN(b)) for a, b in rs), clist(cstr(k) for k in kids))
+
+
+def c_input_cdb(c: dict) -> str:
+    return cpair(cbool(c["cat"] == "C"), clist(c_crow(r) for r in c["old"]), clist(c_crow(r) for r in c["new"]))
+
+
+def c_case_cdb(c: dict, o: dict) -> str:
+    given = "(Some " + cpair(clist(c_trow(r) for r in c["old_rows"]), clist(c_trow(r) for r in c["new_rows"])) + ")"
+    return cpair(cpair(c_input_cdb(c), given), c_out_db(o))
+
+
+def enc_case_cdb(i: int, c: dict, o: dict) -> str:
+    given = "/".join(enc_trow(r) for r in c["old_rows"]) + "~" + "/".join(enc_trow(r) for r in c["new_rows"])
+    out = "!" if "exc" in o else "/".join(enc_trow(r) for r in o["rows"])
+    return "|".join([str(i), c["cat"], given, out])
+
+
+FAMILIES = {
+    "hw_vlandb": dict(
+        payload=db_payload, enc=enc_case_db, check="check_data_db", sig="HwVlanDb", title="huawei global VLAN database",
+        diag={0: "ok", 1: "block-kept-but-vlan-dropped-from-batch", 2: "common-vlan-removed", 3: "final-set-differs",
+              4: "raised", 5: "unreadable-command", 6: "outside-domain"},
+        corr="Model.VlanDb.db_rows vs annet.api._diff_and_patch (shipped huawei rulebook)",
+        struct="Model.VlanDb.db_struct vs Model.VlanDb.db_rows", tag="vlan-database"),
+    "cisco_vlandb": dict(
+        payload=cdb_payload, enc=enc_case_cdb, check="check_data_cdb", sig="CiscoVlanDb",
+        title="cisco/nexus global vlan rule with blocks",
+        diag={0: "ok", 1: "vlan-of-kept-row-removed-with-its-block", 2: "common-vlan-removed", 3: "final-set-differs",
+              4: "raised", 5: "unreadable-command", 6: "outside-domain"},
+        corr="Model.VlanCisco.cisco_rows vs annet.api._diff_and_patch (shipped cisco/nexus rulebooks)",
+        struct="Model.VlanCisco.cisco_struct vs Model.VlanCisco.cisco_rows", tag="cisco-vlan-blocks"),
+}
+
+
+def process_blocks(ctx, fam_name: str, cases: list[dict], stats: DbStats, tag: str) -> None:
+    """implementation on every case; Coq (Spec.P_C11.check_data_db / check_data_cdb) answers, for every case, which of
+    agree / holds / struct_is_text is false and the class of a failure of the property"""
+    fam = FAMILIES[fam_name]
+    outs = core.run_impl_sharded("c11_runner.py", [fam["payload"](c) for c in cases])
     stats.add(cases, outs)
-    stats.samples = [{"input": {"kind": "hw_vlandb", "old_rows": c["old_rows"], "new_rows": c["new_rows"]}, "impl": o}
+    stats.samples = [{"input": {"kind": fam_name, "old_rows": c["old_rows"], "new_rows": c["new_rows"]}, "impl": o}
                      for c, o in list(zip(cases, outs))[-2:]]
     per_file = max(60, min(8000, len(cases) // core.NPROC + 1))
-    failing = sorted(run_compact(cases, outs, per_file, tag="compact_" + tag, enc=enc_case_db, check="check_data_db",
+    failing = sorted(run_compact(cases, outs, per_file, tag="compact_" + tag, enc=fam["enc"], check=fam["check"],
                                  coded=True))
     stats.failing += len(failing)
     if any(code == 255 for _, code in failing):
-        raise core.CheckFailure("compact case file (vlan database): a line could not be decoded by Coq")
+        raise core.CheckFailure(f"compact case file ({fam['title']}): a line could not be decoded by Coq")
     for l, bit in (("agree", 1), ("holds", 2), ("struct_is_text", 4)):
         stats.bad[l] += sum(1 for _, code in failing if code & bit)
-    bad = [(i, DIAG_DB[code >> 3]) for i, code in failing if code & 2]
+    bad = [(i, fam["diag"][code >> 3]) for i, code in failing if code & 2]
     # smallest failing inputs first: the replay of a class is its simplest member
     bad.sort(key=lambda t: len(json.dumps([cases[t[0]]["old_rows"], cases[t[0]]["new_rows"]])))
     seen: dict[str, int] = {}
@@ -837,26 +1000,30 @@ def process_db(ctx, cases: list[dict], stats: DbStats, tag: str) -> None:
         if seen[d] > 5:
             continue
         c = cases[i]
+        hw = f" ({CDB_HW[c['cat']]})" if "cat" in c else ""
         ctx.add_violation(core.Violation(
-            signature=f"C11/HwVlanDb/{d}",
-            what=f"huawei global VLAN database: old {c['old_rows']} -> new {c['new_rows']}: emitted {outs[i]} ({d})",
+            signature=f"C11/{fam['sig']}/{d}",
+            what=f"{fam['title']}{hw}: old {c['old_rows']} -> new {c['new_rows']}: emitted {outs[i]} ({d})",
             replay={"case": c, "impl": outs[i]}))
     for d, n in seen.items():
         stats.classes[d] = stats.classes.get(d, 0) + n
-    if not bad:
-        for i in [i for i, code in failing if code & 1][:1]:
-            ctx.add_violation(core.Violation(
-                signature="C11/model-impl-disagree/vlan-database",
-                what="Coq model Model.VlanDb.db_rows and the rows of _diff_and_patch differ (correspondence broken); "
-                     "P_C11_db holds on all implementation outputs explored",
-                replay={"correspondence": "Model.VlanDb.db_rows vs annet.api._diff_and_patch (shipped huawei rulebook)",
-                        "case": cases[i], "impl": outs[i]}, no_input=True))
-        for i in [i for i, code in failing if code & 4][:1]:
-            ctx.add_violation(core.Violation(
-                signature="C11/struct-text-model-disagree/vlan-database",
-                what="structured model (theorems) and text-level model differ on a generated case",
-                replay={"correspondence": "Model.VlanDb.db_struct vs Model.VlanDb.db_rows", "case": cases[i]},
-                no_input=True))
+    # correspondence failures are reported whatever the property verdicts are (core.finish keeps them only when no
+    # violation with a failing input remains, known findings aside)
+    for i in [i for i, code in failing if code & 1][:1]:
+        ctx.add_violation(core.Violation(
+            signature=f"C11/model-impl-disagree/{fam['tag']}",
+            what=f"Coq model and the rows of _diff_and_patch differ (correspondence broken: {fam['corr']}); "
+                 "the property predicate holds on all implementation outputs explored, known findings aside",
+            replay={"correspondence": fam["corr"], "case": cases[i], "impl": outs[i]}, no_input=True))
+    for i in [i for i, code in failing if code & 4][:1]:
+        ctx.add_violation(core.Violation(
+            signature=f"C11/struct-text-model-disagree/{fam['tag']}",
+            what="structured model (theorems) and text-level model differ on a generated case",
+            replay={"correspondence": fam["struct"], "case": cases[i]}, no_input=True))
+
+
+def process_db(ctx, cases: list[dict], stats: DbStats, tag: str) -> None:
+    process_blocks(ctx, "hw_vlandb", cases, stats, tag)
 
 
 def run(ctx):
@@ -873,21 +1040,32 @@ def run(ctx):
     process_db(ctx, db_cases, dbs, "db")
     db_samples = dbs.samples
     process_db(ctx, gen_db_exhaustive(ctx), dbs, "dbx")
+    cbs = DbStats()
+    cdb_cases = gen_cdb_cases(ctx)
+    ctx.rng("order-cdb").shuffle(cdb_cases)
+    process_blocks(ctx, "cisco_vlandb", cdb_cases, cbs, "cdb")
+    cdb_samples = cbs.samples
+    process_blocks(ctx, "cisco_vlandb", gen_cdb_exhaustive(ctx), cbs, "cdbx")
     ctx.coverage.update({
-        "evaluations": stats.n + dbs.n,
-        "distinct_nontrivial": stats.nontrivial + dbs.nontrivial,
+        "evaluations": stats.n + dbs.n + cbs.n,
+        "distinct_nontrivial": stats.nontrivial + dbs.nontrivial + cbs.nontrivial,
         "rule": "VLAN lists: distinct by (rule kind, old rows, new rows); non-trivial = the two lists differ in at "
                 "least one line and the implementation emitted at least one command row.  VLAN database: distinct by "
                 "(old rows, new rows); non-trivial = at least one `vlan N` block on either side and at least one "
-                "command row emitted",
-        "samples": stats.samples + db_samples,
-        "traces_validated_against_impl": stats.n + dbs.n,
-        "disagreements_checked": stats.bad["agree"] + dbs.bad["agree"],
-        "cases_failing_any_predicate": stats.failing + dbs.failing,
-        "struct_vs_text_model_mismatches": stats.bad["struct_is_text"] + dbs.bad["struct_is_text"],
+                "command row emitted; the same for the cisco/nexus `vlan` rule with blocks (distinct by hardware kind, "
+                "old rows, new rows)",
+        "samples": stats.samples + db_samples + cdb_samples,
+        "traces_validated_against_impl": stats.n + dbs.n + cbs.n,
+        "disagreements_checked": stats.bad["agree"] + dbs.bad["agree"] + cbs.bad["agree"],
+        "cases_failing_any_predicate": stats.failing + dbs.failing + cbs.failing,
+        "struct_vs_text_model_mismatches": stats.bad["struct_is_text"] + dbs.bad["struct_is_text"] +
+        cbs.bad["struct_is_text"],
         "vlan_database": {"evaluations": dbs.n, "distinct_nontrivial": dbs.nontrivial, "lines_histogram": dbs.lines,
                           "outcome_histogram": dbs.out, "emitted_command_histogram": dbs.cmds,
                           "cases_failing_any_predicate": dbs.failing, "failure_classes": dbs.classes},
+        "cisco_vlan_blocks": {"evaluations": cbs.n, "distinct_nontrivial": cbs.nontrivial, "rows_histogram": cbs.lines,
+                              "outcome_histogram": cbs.out, "emitted_command_histogram": cbs.cmds,
+                              "cases_failing_any_predicate": cbs.failing, "failure_classes": cbs.classes},
         "kind_histogram": stats.kind,
         "lines_histogram": stats.lines,
         "outcome_histogram": stats.out,
@@ -905,11 +1083,23 @@ def run(ctx):
         "wipe it (Model.VlanDb.effect); one block per VLAN id, at most one `name` and one `description` row per block, "
         "no `undo ...` option rows; theorems additionally: a VLAN with a block in the new configuration that was in "
         "the old batch is in the new batch (outside: known finding)",
+        "cisco/nexus `vlan` rule with blocks: the VLANs of the device are the union of the list rows and of the "
+        "`vlan N` blocks; `vlan a,b-c` adds, `no vlan a,b-c` removes, entering `vlan N` creates VLAN N; child rows only "
+        "under a row naming one VLAN, at most one `name` / `description` row, no `no ...` child rows; theorems "
+        "additionally: in the old configuration a VLAN is written on one row (outside: known finding)",
     ]
 
 
 def replay(ctx, doc):
     c = doc["replay"]["case"]
+    if c.get("kind") == "cisco_vlandb":
+        c = dict(c, old=[([tuple(r) for r in rs], k) for rs, k in c["old"]],
+                 new=[([tuple(r) for r in rs], k) for rs, k in c["new"]])
+        out = core.run_impl("c11_runner.py", [cdb_payload(c)])[0]
+        res = core.run_case_files(ID, "case_cdb", IMPORTS, {"holds": "holds_cdb"}, [c_case_cdb(c, out)], tag="replay")
+        d = core.coq_eval(ID, IMPORTS, [f"diagnose_cdb {c_input_cdb(c)} {c_out_db(out)}"], tag="diag_cdb")[0]
+        print("impl:", out, "holds:", not res["holds"], "diagnosis:", d)
+        return 1 if res["holds"] else 0
     if c.get("kind") == "hw_vlandb":
         c = dict(c, old=[(bool(f), [tuple(r) for r in rs]) for f, rs in c["old"]],
                  new=[(bool(f), [tuple(r) for r in rs]) for f, rs in c["new"]])
